@@ -34,7 +34,7 @@ Theorem C09_header_last_before_fix_refuted : exists c t1 t2 i,
   firstn sanity_size (cache (run empty_file t1)) = ref_sanity /\
   c_H c <= i /\ nth i (durable (run empty_file t1)) 0 <> nth i (cache (run empty_file (t1 ++ t2))) 0.
 Proof.
-  exists {| c_H := 128; c_vocab1 := repeat 7 8; c_vocab2 := repeat 7 8; c_search1 := repeat 9 3960; c_search2 := repeat 9 3960;
+  exists {| c_H := 128; c_vocab1 := repeat 7 8; c_vocab2 := repeat 7 8; c_pad := 0; c_search1 := repeat 9 3960; c_search2 := repeat 9 3960;
             c_words := unk6; c_header := ref_sanity ++ repeat 0 40 |}.
   eexists. exists []. exists 4096.
   split; [unfold wf_contents; vm_compute; repeat split; lia|].
@@ -57,7 +57,7 @@ Proof. exact load_needs_header. Qed.
 (* the trace as a system-call tracer sees it (the correspondence compares this with the recorded calls) *)
 Theorem C09_trace_shape : forall wm iv c, wf_contents c ->
   shapes (finish_trace wm iv c) =
-  finish_shape wm iv (c_H c) (c_H c + length (c_vocab1 c)) (length (c_search1 c)) (length (c_words c)).
+  finish_shape wm iv (c_H c) (c_H c + length (c_vocab1 c)) (c_pad c) (length (c_search1 c)) (length (c_words c)).
 Proof. exact finish_shape_correct. Qed.
 
 (* the model's header size formula is the code's TotalHeaderSize for every order, and the distinguishing byte
